@@ -39,8 +39,9 @@ var entries = libx.Entries()
 
 func Spec() *mon.Spec {
 	return &mon.Spec{
-		ID:    "C10",
-		Level: "exploration",
+		ID:      "C10",
+		RuleAdd: "Later additions (rounds 4-17): nil value with nil error; the caller's buffer incl. spare capacity compared before and after every call; Error(), errors.Is and errors.As on every returned error under recover; nil slices; a classifier that accepts fewer than 8 bytes is reported before the assembler is fed.",
+		Level:   "exploration",
 		Rule: "every exported byte-consuming parse entry point of package packet (census taken with go/parser over the repository at run time; a function missing from the harness table makes the run inconclusive) is called under recover() with each input presented three ways: exact-capacity slice, sub-slice of a zero-tailed backing array, sub-slice whose spare capacity continues a valid frame. Oracle: no panic; identical results across presentations (error text, DeepEqual value, Bytes()); error => value nil / nil pointer / zero header. " +
 			"Inputs: tcp-consistent = for every function-code byte 0..255 and every total length 0..300 an MBAP-consistent frame (length field = len-6) with zero/FF/PRNG/plausible bodies; rtu-shaped = same for RTU with and without valid CRC; mutate = every prefix and single-byte mutations of valid request/response frames; small = all strings of length<=4 over full alphabet at the function-code position and {0,1,3,0x7f,0x80,0xff} elsewhere; random = PRNG strings 0..400. distinct key=(entry, length, function-code byte, outcome class).",
 		Assumptions: []string{"Go turns out-of-bounds reads into panics; reads inside spare capacity are detected only through differing results between presentations"},
